@@ -391,7 +391,12 @@ def op_line(op: list) -> str:
 def run_workflow(case: dict) -> tuple[list[str], list[list], dict]:
     """case: {"g", "workers": [{"reqs", "num_workers", "count"}], "order": [worker index per event], "seed"}
     and optionally "outer": n (the workflow is run from the body of a step, with an injected resource, of n nested
-    enclosing workflows) and "pre": [rids] (bare `manager.get`s made by the running task before `run()`).
+    enclosing workflows), "pre": [rids] (bare `manager.get`s made by the running task before `run()`) and
+    "runs": [{"end": "cancel", "after": k}, ...] -- earlier runs of the SAME workflow instance (same
+    ResourceManager), each ended by `handler.cancel_run()` (the workflow timeout and a failing step end a run
+    through the same `cleanup_tasks`) at the (k+1)-th quiescent point
+    at which an invocation is suspended inside a resource factory (it completes normally if that never happens),
+    before the run that goes to completion.
     Returns (lines, ops, info) in the same format as the direct runs; ops are recorded as
     they happen (spawn = an invocation enters partial(); open = the scheduler opens a gate)."""
     from workflows import Context, Workflow
@@ -401,9 +406,11 @@ def run_workflow(case: dict) -> tuple[list[str], list[list], dict]:
 
     g = case["g"]
     rng = random.Random(case["seed"])
-    info: dict[str, Any] = {"tasks": [], "events": [], "result": "pending", "all_opened": True}
+    info: dict[str, Any] = {"tasks": [], "events": [], "result": "pending", "all_opened": True, "run_results": [],
+                            "run_end_states": [], "run_cancelled": False}
     ops: list[list] = []
     lines: list[str] = []
+    endings: list[dict] = [dict(e) for e in case.get("runs", [])] if not case.get("outer") else []
 
     async def main(loop: VLoop) -> None:
         w = World(g)
@@ -528,7 +535,19 @@ def run_workflow(case: dict) -> tuple[list[str], list[list], dict]:
                 rec["outcome"] = outcome
                 w.events.append(f"fin:{tid}:{outcome}")
 
+        cur: dict[str, Any] = {"ending": None, "handler": None, "frozen": False}
+
         def hook() -> bool:
+            if cur["frozen"]:
+                return False  # nobody acts any more: virtual time runs on to the workflow timeout
+            end = cur["ending"]
+            if end is not None and w.gates:
+                if end["after"] <= 0:
+                    cur["ending"] = None
+                    info["run_cancelled"] = True
+                    loop.create_task(cur["handler"].cancel_run())
+                    return True
+                end["after"] -= 1
             cands = [("r", t) for t in sorted(w.gates)] + [("b", i) for i in sorted(body_gates)]
             if not cands:
                 return False
@@ -546,6 +565,33 @@ def run_workflow(case: dict) -> tuple[list[str], list[list], dict]:
             try:
                 for r0 in case.get("pre", []):
                     await warm(r0)
+                for end in endings:
+                    # an earlier run of the same instance, ended from outside while (if ever) a step worker is
+                    # suspended inside a resource factory: the engine cancels the workers (cleanup_tasks)
+                    first = len(info["tasks"])
+                    state["done"] = 0
+                    cur.update(ending=end, frozen=False)
+                    cur["handler"] = wf.run()
+                    try:
+                        r = await cur["handler"]
+                        info["run_results"].append(f"ok:{r}")
+                    except asyncio.CancelledError:
+                        raise
+                    except BaseException as e:  # noqa: BLE001
+                        info["run_results"].append(f"error:{type(e).__name__}:{str(e)[:80]}")
+                    cur.update(ending=None, frozen=False)
+                    for g_ in list(body_gates.values()):
+                        g_.set()
+                    # the model's view of the engine's cleanup: the invocations still resolving are cancelled,
+                    # those queued on the scope lock first (no order among them is observable: every worker
+                    # task is cancelled before any of them runs again), then the one inside the scope
+                    gone = [t for t in range(first, len(info["tasks"])) if info["tasks"][t]["outcome"] == "cancelled"]
+                    inside = [t for t in gone if any(e.startswith(f"call:{t}:") for e in info["events"] + w.events)]
+                    for t in [t for t in gone if t not in inside] + inside:
+                        record(["cancel", t])
+                    flush()
+                    info["run_end_states"].append(w.state(phases()))
+                state["done"] = 0
                 r = await top.run()
                 info["result"] = f"ok:{r}"
             except BaseException as e:  # noqa: BLE001
@@ -557,6 +603,7 @@ def run_workflow(case: dict) -> tuple[list[str], list[list], dict]:
             loop.quiescence_hook = None
             flush()
             info["all_opened"] = not w.gates
+            info["run_end_states"].append(w.state(phases()))
 
     _run_on_vloop(main)
     if info["result"] == "pending" or info["result"] == "error:cancelled":
